@@ -70,6 +70,31 @@ def check_crossing_value(r, samples, rate, target_on_grid, what):
     return idx
 
 
+class _Deadline:
+    """'always terminates': a search on a recording of a few hundred samples takes milliseconds; one that is still running
+    after LIMIT seconds (a factor of >1000) is reported as not terminating. SIGALRM, so main thread only (which is where
+    checks run, also in the forked shard workers)."""
+    LIMIT = 30.0
+
+    def __init__(self, what):
+        self.what = what
+
+    def _fire(self, signum, frame):
+        raise Violation("does-not-terminate", f"{self.what}: still running after {self.LIMIT} s")
+
+    def __enter__(self):
+        import signal
+        self.old = signal.signal(signal.SIGALRM, self._fire)
+        signal.setitimer(signal.ITIMER_REAL, self.LIMIT)
+        return self
+
+    def __exit__(self, *a):
+        import signal
+        signal.setitimer(signal.ITIMER_REAL, 0)
+        signal.signal(signal.SIGALRM, self.old)
+        return False
+
+
 def mk_wav(samples, width, rate):
     from praatio import audio
 
@@ -103,7 +128,8 @@ def run_zero_crossing(case):
     frames_before = getattr(wav, "frames", None)
     try:
         try:
-            r = wav.findNearestZeroCrossing(t, step)
+            with _Deadline(what):
+                r = wav.findNearestZeroCrossing(t, step)
         finally:
             if "query_wav" in cl:
                 wav.audiofile.close()
@@ -140,7 +166,8 @@ def run_search_edit_search(case):
     n = len(samples)
     t = (case["target"] % (n + 1)) / rate
     try:
-        wav.findNearestZeroCrossing(t)
+        with _Deadline("first search"):
+            wav.findNearestZeroCrossing(t)
     except p.errors.PraatioException:
         pass
     i, j = sorted([case["i"] % (n + 1), case["j"] % (n + 1)])
@@ -150,7 +177,8 @@ def run_search_edit_search(case):
     if from_bytes(wav.frames, width) != samples:
         raise Violation("samples-differ", "replaceSegment with an equally long stretch")
     try:
-        r = wav.findNearestZeroCrossing(t)
+        with _Deadline("search after the edit"):
+            r = wav.findNearestZeroCrossing(t)
     except p.errors.ArgumentError:
         return {"classes": ["step_too_small"], "nontrivial": False}
     except p.errors.FindZeroCrossingError:
@@ -187,7 +215,7 @@ def run_tg_boundaries(case):
     tg.addTier(p.PointTier("pt", [p.Point(i / rate, l) for i, l in case["points"]], 0, tg_end))
     before = snap_tg(tg)
     try:
-        with quiet():
+        with quiet(), _Deadline("tgBoundariesToZeroCrossings"):
             res = praatio_scripts.tgBoundariesToZeroCrossings(tg, wav, case["adj_points"], case["adj_intervals"])
     except p.errors.PraatioException as e:
         note_accept(f"rejected:{type(e).__name__}")
@@ -252,7 +280,7 @@ def run_splice(case):
     point = t_ins if t_stop is None else t_stop
     straddle = any(s < point < e for s, e, _ in ents)
     try:
-        with quiet():
+        with quiet(), _Deadline(what):
             new_audio, new_tg = praatio_scripts.audioSplice(wav, segw, tg, "target", "SPLICE", t_ins, t_stop, align)
     except p.errors.PraatioException as e:
         if align:
